@@ -343,7 +343,7 @@ Print Assumptions C05_ident1_is_the_interning_key.
     keeps the content type *)
 Theorem C05_ident1_facts :
   forall t : src, canon (ident1 t) = canon t /\ ident1 (ident1 t) = ident1 t /\ peel1 (ident1 t) = peel1 t.
-Proof. exact (fun t => conj (canon_ident1 t) (conj (ident1_idem t) (peel1_ident1 t))). Qed.
+Proof. exact ident1_facts. Qed.
 Print Assumptions C05_ident1_facts.
 
 Theorem C05_cf_implies_cf1 :
@@ -531,3 +531,33 @@ Proof.
               (conj ex5_examples (conj examples_registry_of1b examples_cf1))).
 Qed.
 Print Assumptions C05_example_labellings.
+
+(** the old discipline implies the new one FOR THE SAME LABELLING exactly on programs where [canon]
+    has nothing to do beyond the one identity step: on the closed field types of every labelled
+    instantiation [canon] and [ident1] agree ([fields_ident1_canon], decidable:
+    [fields_ident1_canonb]; no Box / VecDeque below the top of a field type, no Box on top of
+    Vec / VecDeque / String / Box).  Beyond that condition it does not
+    ([C05_example_labellings]), and what [RegistryOf] describes there (one entry shared by
+    [Vec<Box<T>>] and [Vec<T>]) is not a registry scale-info produces *)
+From V Require Import Proofs.RegistryOf1Compare.
+
+Theorem C05_RegistryOf_implies_RegistryOf1 :
+  forall defs L r,
+    RegistryOf defs L r ->
+    (forall id d args sd sf,
+       L id = Some (SApp d args) -> nth_error defs d = Some sd -> In sf (def_sfields sd) ->
+       let c := subst_src args (sf_ty sf) in
+       let c' := canon (subst_src args (sf_ty sf)) in
+       (if sf_compact_attr sf then SCompactT c' else c') = ident1 (if sf_compact_attr sf then SCompactT c else c)) ->
+    RegistryOf1 defs L r.
+Proof. exact RegistryOf_RegistryOf1. Qed.
+Print Assumptions C05_RegistryOf_implies_RegistryOf1.
+
+Theorem C05_fields_ident1_canonb_sound :
+  forall defs labels,
+    fields_ident1_canonb defs labels = true -> fields_ident1_canon defs (label_at labels) /\
+    (fields_ident1_canonb ex6_defs ex6_labels = true /\ fields_ident1_canonb ex7_defs ex7_labels = true /\
+     fields_ident1_canonb f19_defs f19_labels = true /\ fields_ident1_canonb f19b_defs f19b_labels = true /\
+     fields_ident1_canonb ex5_defs ex5_labels = false).
+Proof. exact fields_ident1_canonb_sound_examples. Qed.
+Print Assumptions C05_fields_ident1_canonb_sound.
